@@ -65,6 +65,16 @@ class TLCResult:
         return res
 
 
+def _die_with_parent():
+    """TLC must not outlive the check that started it (a killed or timed-out check otherwise leaves JVMs burning cores)."""
+    try:
+        import ctypes
+        import signal
+        ctypes.CDLL("libc.so.6", use_errno=True).prctl(1, signal.SIGKILL)      # PR_SET_PDEATHSIG
+    except Exception:
+        pass
+
+
 def run_tlc(module_path, cfg=None, workers=1, env=None, timeout=600, extra=(), heap="3g", metadir=None,
             deadlock=False):
     d = os.path.dirname(module_path)
@@ -86,7 +96,7 @@ def run_tlc(module_path, cfg=None, workers=1, env=None, timeout=600, extra=(), h
     t0 = time.time()
     try:
         p = subprocess.run(cmd, cwd=d, env=e, stdout=subprocess.PIPE, stderr=subprocess.STDOUT,
-                           timeout=timeout, text=True)
+                           timeout=timeout, text=True, preexec_fn=_die_with_parent)
         out, rc = p.stdout, p.returncode
     except subprocess.TimeoutExpired as ex:
         out = (ex.stdout or b"").decode() if isinstance(ex.stdout, bytes) else (ex.stdout or "")
